@@ -3,6 +3,7 @@ import Rooc.WireModel
 import Rooc.Bounds
 import Rooc.BoundsOracle
 import Rooc.Gen.Consts
+import Rooc.Compile
 namespace Rooc.Drv.C07
 open Rooc Sexp
 
@@ -21,6 +22,13 @@ def handle (α : Type) [Arith α] [Wire α] : List Sexp → Sexp
   | [.atom "linbounds", tol, .list (.atom "domain" :: d), .list (.atom "constraints" :: cs)] =>
     match (decNumS tol : Option α), decInstance (α := α) d cs [] with
     | some tol, some (d, cs, _) => encReport (linearizerBounds d cs tol Gen.boundsMaxSteps)
+    | _, _ => app "err" [.atom "decode"]
+  | [.atom "compile-domains", m, tol] =>
+    match (Model.dec m : Option (Model α)), (decNumS tol : Option α) with
+    | some m, some tol =>
+      match Compile.linearize m tol Gen.boundsMaxSteps with
+      | .ok lm => app "ok" [app "domain" (lm.domain.map fun d => DomVar.enc { d with ty := canonTy d.ty })]
+      | .error _ => app "err" []
     | _, _ => app "err" [.atom "decode"]
   | [.atom "analyze-steps", .atom n, tol, .list (.atom "domain" :: d), .list (.atom "constraints" :: cs), .list (.atom "exprs" :: es)] =>
     match n.toNat?, (decNumS tol : Option α), decInstance (α := α) d cs es with
